@@ -69,23 +69,9 @@ Definition answer_fv (d : dict) (q : query) : val :=
   let fs := freq_sum d in
   L [ get_fv fs (get (fst (snd q)) d);
       closest_fv fs (closest_fl (fst q) (snd (snd q)) d);
-      list_v fl_v (firstn dists_cap (dists_fl (fst q) (snd (snd q)) d)) ].
+      list_v fl_v (dists_fl (fst q) (snd (snd q)) (firstn dists_cap d)) ].
 
-(** the float-level output: creates / reload / loaded as before, the answers with floats *)
-Definition run_C20f (v : val) : val :=
-  let p := modelize (prep v) in
-  match run_C20 p with
-  | L [creates; reload; loaded; _] =>
-    let ld := option_map sorted_d (load (in_dfile p)) in
-    L [creates; reload; loaded;
-       match ld with
-       | Some d => list_v (answer_fv d) (in_queries p)
-       | None => L []
-       end]
-  | x => x
-  end.
-
-(** back to the answers [check_C20] / [agree_C20] read: [(get? closest?)] without floats *)
+(** back to the answer [check_closest] reads: [(get? closest?)] without floats *)
 Definition strip_answer (a : val) : val :=
   match a with
   | L [g; c; _] =>
@@ -93,10 +79,26 @@ Definition strip_answer (a : val) : val :=
         match c with L [L [w; f; _]] => L [L [w; f]] | _ => c end ]
   | _ => a
   end.
-Definition strip_out (out : val) : val :=
+(** an output without its answers: what [check_C20] / [agree_C20] judge on the input without queries ([prep0]) *)
+Definition strip0 (out : val) : val :=
   match out with
-  | L [creates; reload; loaded; L answers] => L [creates; reload; loaded; L (map strip_answer answers)]
+  | L [creates; reload; loaded; _] => L [creates; reload; loaded; L []]
   | _ => out
+  end.
+
+(** the dictionary [load] yields for the dictionary file, in the model's canonical order *)
+Definition loaded_dict (v : val) : option dict := option_map sorted_d (load (prep_dfile (in_dfile v))).
+
+(** the float-level output: creates / reload / loaded as before, the answers with floats *)
+Definition run_C20f (v : val) : val :=
+  match run_C20 (modelize (prep0 v)) with
+  | L [creates; reload; loaded; _] =>
+    L [creates; reload; loaded;
+       match loaded_dict v with
+       | Some d => list_v (answer_fv d) (prep_queries v)
+       | None => L []
+       end]
+  | x => x
   end.
 
 (** the value of returned float fields as an exact fraction (C12_Float.num_of_fl_v; denominator 0 = NaN / infinity) *)
@@ -114,24 +116,35 @@ Definition rel_ok (fs : Z) (a : val) : bool :=
   | _ => false
   end.
 
-(** the executable statement: [check_C20u] on the prepared input (files read from their bytes, keys and queries
-    normalised and segmented by the model) and, for a loaded dictionary with freq_sum > 0, relative frequencies in [0,1] *)
+(** the executable statement: [check_C20u] on the prepared input (files read from their bytes) for [create], identical
+    builds, save -> load and the shape of [load]'s result; for the dictionary the implementation loaded, every answer
+    of [get_closest] an entry at minimal RATIONAL distance (the model's own segmentation of keys and of the query it
+    normalised itself) and most frequent among those, [None] exactly on the empty dictionary; and, when freq_sum > 0,
+    relative frequencies in [0,1] *)
 Definition check_C20f (v out : val) : bool :=
-  check_C20u (prep v) (strip_out out)
+  check_C20u (prep0 v) (strip0 out)
   && match out with
-     | L [_; _; L [L [_; I fs]]; L answers] => forallb (rel_ok fs) answers
-     | _ => true
+     | L [_; _; loaded; L answers] =>
+       match loaded with
+       | L [] => match answers with [] => true | _ => false end
+       | _ => match v_lres loaded with
+              | Some (d, fs) =>
+                all2b (fun q a => check_closest_m d q (strip_answer a)) (prep_queries v) answers
+                && forallb (rel_ok fs) answers
+              | None => false
+              end
+       end
+     | _ => false
      end.
 
-(** correspondence: everything of [agree_C20b] on the stripped outputs, and the float level EXACTLY: on the
+(** correspondence: [agree_C20] on the outputs without answers, the oracle cross-checks, and the answers EXACTLY: on the
     dictionary in the implementation's own iteration order (its [items()]), [get], [get_closest] (which entry among
     ties included: the order decides, the model follows it), the relative frequencies and the distances bit for bit *)
 Definition agree_C20f (v m i : val) : bool :=
-  agree_C20b v (strip_out m) (strip_out i)
+  agree_C20 (modelize (prep0 v)) (strip0 m) (strip0 i)
+  && uax29_agree v && ucd_agree v && reader_agree v && query_agree v
   && match i with
-     | L [_; _; L [L [ii; _]]; L ia] =>
-       let p := prep v in
-       val_eqb (L ia) (list_v (answer_fv (v_items ii)) (in_queries p))
+     | L [_; _; L [L [ii; _]]; L ia] => val_eqb (L ia) (list_v (answer_fv (v_items ii)) (prep_queries v))
      | L [_; _; L []; L ia] => match ia with [] => true | _ => false end
      | _ => false
      end.
